@@ -417,8 +417,14 @@ class OddStr(Exception):
         return ''
 
 
+class BadStr(Exception):
+    """a user exception whose str() itself raises (a domain error given the wrong payload)"""
+    def __str__(self):
+        raise TypeError('cannot describe this error')
+
+
 EXC = [ValueError, TypeError, KeyError, RuntimeError, ZeroDivisionError, AttributeError, RecursionError, StopIteration, AssertionError,
-       NotImplementedError, OSError, MemoryError, CollectedErrors, OddStr]
+       NotImplementedError, OSError, MemoryError, CollectedErrors, OddStr, BadStr]
 CLASSES = {}
 
 
@@ -845,7 +851,7 @@ def failures_section(tier, seed):
         sz = size(t)
         cases.append((t, {}, set()))
         for k in range(sz):
-            for e in (range(len(EXC)) if tier == 'thorough' else [0, 1, EXC.index(RecursionError), EXC.index(CollectedErrors), rng.randrange(2, len(EXC))]):
+            for e in (range(len(EXC)) if tier == 'thorough' else [0, 1, EXC.index(RecursionError), EXC.index(CollectedErrors), EXC.index(BadStr), rng.randrange(2, len(EXC))]):
                 cases.append((t, {k: ('raises', e)}, set()))
                 if k > 0:
                     cases.append((t, {k: ('raises', e)}, {k}))          # the faulty value under a trailing comment
